@@ -15,10 +15,16 @@ import (
 	"symgo/interp"
 )
 
-const (
-	repoDir = "/repo"
-	modPath = "github.com/elastic/go-libaudit/v2"
-)
+const modPath = "github.com/elastic/go-libaudit/v2"
+
+// repoDir is the tree under test: /repo, or (development only, for trying seeded changes without
+// touching /repo) the scratch worktree named by $VERIF_REPO.
+var repoDir = func() string {
+	if d := os.Getenv("VERIF_REPO"); d != "" {
+		return d
+	}
+	return "/repo"
+}()
 
 // verifDir is the directory that holds checks.json, harness/, evidence/ ...: the parent of the
 // directory of this executable (bin/symgo), so that a snapshot of /verif works on its own files.
